@@ -636,7 +636,12 @@ pub fn run_check(prop: &str, tier: &str) -> i32 {
     let seed: i64 = std::env::var("VERIF_SEED").ok().and_then(|s| s.parse().ok()).unwrap_or(0);
     let kf = Known::load();
     let pool = Pool::new();
-    let (out, rule) = if matches!(prop, "C07" | "C08" | "C09" | "C10") {
+    let (out, rule) = if prop == "C05" {
+        (
+            crate::schedx::run_c05(&pool, tier, &kf),
+            "stateless exploration of thread schedules of the real engine under a cooperative scheduler: for every harness (3 pre-states x 12 two-thread menus + three-thread menus, see per_config) every schedule with at most the stated number of preemptions (switching away from a thread that could continue) at the cfg-guarded lock-free scheduling points and API-call boundaries is executed; states = schedules whose outcome satisfied the oracle, transitions = schedules executed; distinct outcomes = distinct (per-thread results, final drain) vectors".to_string(),
+        )
+    } else if matches!(prop, "C07" | "C08" | "C09" | "C10") {
         let Some(cs) = crate::crash::spec_for(prop, tier) else { return 2 };
         let rule = format!(
             "{} bounded workloads per configuration, each executed once on the real engine with the I/O recorder on; every crash state ({}) is materialised from the recorded mutations, opened by the real recovery code in a worker and drained; states = crash states that satisfied the oracle, transitions = workloads + recoveries executed; distinct outcomes = distinct (topic, recovered length, acknowledged length) triples",
